@@ -593,6 +593,20 @@ for _pid in ('C20', 'C08', 'C11'):
 PROPS['C01']['rules'] += [R6.rule_partial_decode, R6.rule_date_whole]
 PROPS['C02']['rules'] += [R6.rule_date_whole, R6.rule_dense_flag]
 PROPS['C04']['rules'] += [R6.rule_group_md_order]
+PROPS['C03']['rules'] += [R6.rule_squeeze, R6.rule_parsed_ids]
+PROPS['C05']['rules'] += [R6.rule_new_axis_metadata, R6.rule_check_all_kinds]
+PROPS['C18']['rules'] += [R6.rule_new_axis_metadata, R6.rule_quotes_everywhere,
+                          R6.rule_split_strips]
+PROPS['C10']['rules'] += [R6.rule_flag_accumulated]
+PROPS['C11']['rules'] += [R6.rule_partition_yields_all]
+PROPS['C12']['rules'] += [R6.rule_kernel_unconditional]
+PROPS['C13']['rules'] += [R6.rule_rank_methods]
+PROPS['C14']['rules'] += [R6.rule_file_ids, R6.rule_filter_order]
+PROPS['C17']['rules'] += [R6.rule_errmsg_repr, R6.rule_adjacency_header]
+PROPS['C19']['rules'] += [R6.rule_reduce_all, R6.rule_export_asis]
+PROPS['C09']['rules'] += [R6.rule_value_buffer_dtype]
+for _pid in ('C05', 'C16', 'C19'):
+    PROPS[_pid]['rules'] += [R6.rule_searchsorted_needs_sorted]
 PROPS['C03']['rules'] += [R6.rule_seek_offsets]
 PROPS['C19']['rules'] += [R6.rule_all_samples_counted]
 for _pid in ('C14', 'C05'):
